@@ -35,3 +35,45 @@ Definition unchanged_outside (old new : list rslot) (base : Z) (count : nat) : P
 Definition read_back_of (app_id : Z) (e : entry) (got : option (entry * Z * Z)) : Prop :=
   exists routes, got = Some (mkEntry routes (e_key e) (e_mask e) [none_dir], app_id, 0)
                  /\ NoDup routes /\ forall r, In r routes <-> In r (e_route e).
+
+(* ------------------------------------------------------------------------------------------------ *)
+(** * what the commands carry *)
+
+(* the 16 bytes of record i *)
+Definition rec_bytes (i : Z) (e : entry) : list Z :=
+  le_bytes 2 i ++ le_bytes 2 0 ++ le_bytes 4 (route_word (e_route e)) ++ le_bytes 4 (e_key e)
+  ++ le_bytes 4 (e_mask e) ++ [].
+
+(* the records of a table, numbered from i *)
+Fixpoint recs_from (i : Z) (es : list entry) : list (list Z) :=
+  match es with
+  | [] => []
+  | e :: es' => rec_bytes i e :: recs_from (i + 1) es'
+  end.
+
+(* the allocation command and its answer, as it appears in the command trace *)
+Definition alloc_item (x y app_id count base : Z) : titem :=
+  TScp x y lrte_alloc_p lrte_alloc_cmd (lrte_alloc_arg1 app_id count) (lrte_alloc_arg2 app_id count) 0 base.
+
+(* what unpack_routing_table_entry makes of 16 bytes *)
+Definition decode_bytes (bs : list Z) : option (entry * Z * Z) :=
+  match unpack_entry bs with Ok v => v | _ => None end.
+
+(* the two reads of get_routing_table_entries *)
+Definition readback_trace (x y : Z) (cs : chipstate) : list titem :=
+  [TRead x y 0 sv_rtr_copy_addr sv_field_size (cksum (le_bytes 4 (cs_rtr_copy cs)));
+   TRead x y 0 (cs_rtr_copy cs) 16384 (cksum (render_slots (cs_slots cs)))].
+
+(* what "the allocator grants a block for this table on this chip" means in machine state m *)
+Definition grantable (m : machine) (c : chip) (es : list entry) : Prop :=
+  exists cs cs1 base,
+    cassoc c m = Some cs /\ chip_ok cs /\ Forall entry_ok es /\ 16 * len es <= len (cs_bufmem cs)
+    /\ rtr_alloc cs (len es) = (cs1, base) /\ base <> 0.
+
+(* what "the table was installed on this chip" means between machine states m and m' *)
+Definition table_installed (m m' : machine) (app_id : Z) (c : chip) (es : list entry) : Prop :=
+  exists cs cs1 base cs',
+    cassoc c m = Some cs /\ rtr_alloc cs (len es) = (cs1, base) /\ base <> 0 /\ cassoc c m' = Some cs'
+    /\ installed (cs_slots cs') base app_id es
+    /\ unchanged_outside (cs_slots cs) (cs_slots cs') base (length es).
+
